@@ -460,7 +460,7 @@ func opMap(fields []string) map[string]string {
 
 // wsConn: Client.connect over a plain ws:// WebSocket transport against an in-process server that answers every step
 // it is asked for (open, features with PLAIN, success, open, features, bind result) and records what it receives.
-func wsConn(insecure bool) string {
+func wsConn(insecure bool, scheme string) string {
 	var mu sync.Mutex
 	var seen []string
 	rec := func(k string) { mu.Lock(); seen = append(seen, k+":0"); mu.Unlock() }
@@ -516,7 +516,7 @@ func wsConn(insecure bool) string {
 	go srv.Serve(ln)
 	defer srv.Close()
 	cfg := &xmpp.Config{
-		TransportConfiguration: xmpp.TransportConfiguration{Address: "ws://" + ln.Addr().String() + "/", Domain: "localhost"},
+		TransportConfiguration: xmpp.TransportConfiguration{Address: scheme + "://" + ln.Addr().String() + "/", Domain: "localhost"},
 		Jid:                    "test@localhost/res", Credential: xmpp.Password("secret"), Insecure: insecure, ConnectTimeout: 2,
 	}
 	client, err := xmpp.NewClient(cfg, xmpp.NewRouter(), func(error) {})
@@ -628,6 +628,19 @@ func (np negProp) Exec(c Case) []string {
 		StreamManagementEnable: v["sm"] == "true",
 	}
 	xmpp.VerifSetSMResume(cfg, true)
+	// the application's TLS settings are part of the configuration NewClient sees (those of the first connection of
+	// the case; per connection they are set on the transport)
+	for _, op := range c.Ops {
+		if op[0] == "conn" {
+			m := opMap(op[1:])
+			tc := &tls.Config{InsecureSkipVerify: m["skip"] == "true", ServerName: unhx(m["sn"])}
+			if m["roots"] == "true" {
+				tc.RootCAs = getPKI().pool
+			}
+			cfg.TLSConfig = tc
+			break
+		}
+	}
 	if v["logger"] == "true" {
 		if lf, err := os.OpenFile(os.DevNull, os.O_WRONLY, 0); err == nil {
 			cfg.StreamLogger = lf // traffic logging on: the stream logger wraps the connection
@@ -648,7 +661,11 @@ func (np negProp) Exec(c Case) []string {
 	for i, op := range c.Ops {
 		switch op[0] {
 		case "wsconn":
-			obs = append(obs, wsConn(cfg.Insecure))
+			scheme := "ws"
+			if len(op) > 1 {
+				scheme = op[1]
+			}
+			obs = append(obs, wsConn(cfg.Insecure, scheme))
 		case "setinbound":
 			// stanzas received meanwhile: counted by the REAL receive loop on the kept session (fed through a stub
 			// transport), so that the count the next <resume/> presents is the one the loop keeps; only a value
@@ -933,6 +950,11 @@ func (np negProp) Generate(rng *rand.Rand, tier string, st *Stats) []Case {
 			for _, sm := range bools {
 				mk(insecure, sm, []string{"wsconn"})
 				st.Inc("websocket_gate")
+				// the scheme test is case-sensitive (C20): another spelling is not a WebSocket address at all - and is
+				// certainly not a SECURE one
+				if !sm {
+					mk(insecure, sm, []string{"wsconn", []string{"WS", "Ws"}[map[bool]int{false: 0, true: 1}[insecure]]})
+				}
 			}
 		}
 	}
@@ -955,6 +977,19 @@ func (np negProp) Generate(rng *rand.Rand, tier string, st *Stats) []Case {
 		}
 	}
 	logger = false
+
+	// certificate verification disabled does NOT mean that running without TLS is allowed: STARTTLS not offered,
+	// refused, or broken off, with InsecureSkipVerify set
+	if np.id != "C11" {
+		for _, insecure := range bools {
+			for _, sn := range []string{"-", hx("alt.example")} {
+				mk(insecure, false, happy(false, false, false).with("skip", "true", "sn", sn).op())
+				mk(insecure, false, happy(true, false, false).with("skip", "true", "sn", sn, "tls", "failure").op())
+				mk(insecure, false, happy(true, false, false).with("skip", "true", "sn", sn, "hs", "false").op())
+				st.Inc("skip_verify_without_tls")
+			}
+		}
+	}
 
 	// TLS matrix (C04): client settings x certificate classes x STARTTLS behaviour
 	if np.id != "C11" {
